@@ -26,6 +26,21 @@ func rulesC02(c *Ctx, r *Report) {
 	rulesNoBufferedPkg(c, r, "formats/fastq")
 	rulesNoCustomSplit(c, r)
 	rulesEntryPoints(c, r, "formats/fastq")
+	{
+		// a malformed record's error reaches the consumer: no error of any call in the package is dropped (B0)
+		var fs []*ssa.Function
+		for _, f := range formatFuncs(c) {
+			root := f
+			for root.Parent() != nil {
+				root = root.Parent()
+			}
+			// the decoding side: everything but the record's own methods (MarshalText writes into memory)
+			if funcPkgPath(f) == modPath+"/formats/fastq" && !strings.Contains(fname(root), "(*Fastq)") {
+				fs = append(fs, f)
+			}
+		}
+		rulesNoDroppedErrors(c, r, fs, 2)
+	}
 	rulesYDPkg(c, r, "formats/fastq") // an error item ends the iteration: reading on after a malformed record re-synchronises on arbitrary lines and fabricates records
 }
 
@@ -46,19 +61,47 @@ func rulesScanBuf(c *Ctx, r *Report, rel string) {
 			// Buffer calls on this scanner value in the same function
 			var bufCalls []*ssa.Call
 			var escapes []ssa.Instruction
-			for _, ref := range *call.Referrers() {
-				switch x := ref.(type) {
-				case *ssa.Call:
-					if methIs(x.Call.StaticCallee(), "bufio", "Scanner", "Buffer") && x.Call.Args[0] == ssa.Value(call) {
-						bufCalls = append(bufCalls, x)
-						continue
+			var visit func(v ssa.Value)
+			visit = func(v ssa.Value) {
+				for _, ref := range *v.Referrers() {
+					switch x := ref.(type) {
+					case *ssa.Call:
+						if methIs(x.Call.StaticCallee(), "bufio", "Scanner", "Buffer") && x.Call.Args[0] == v {
+							bufCalls = append(bufCalls, x)
+							continue
+						}
+						escapes = append(escapes, x)
+					case *ssa.DebugRef:
+					case *ssa.Store:
+						// kept in a field of a struct made here (rd := &reader{s: NewScanner(r)}): the loads of that field
+						// are the scanner; the struct leaving the function is the escape
+						if fa, ok := x.Addr.(*ssa.FieldAddr); ok && x.Val == v {
+							if al, ok := fa.X.(*ssa.Alloc); ok {
+								for _, r2 := range *al.Referrers() {
+									switch y := r2.(type) {
+									case *ssa.FieldAddr:
+										if y.Field == fa.Field && y != fa {
+											for _, r3 := range *y.Referrers() {
+												if ld, ok := r3.(*ssa.UnOp); ok && ld.Op == token.MUL {
+													visit(ld)
+												}
+											}
+										}
+									case *ssa.DebugRef:
+									default:
+										escapes = append(escapes, r2)
+									}
+								}
+								continue
+							}
+						}
+						escapes = append(escapes, ref)
+					default:
+						escapes = append(escapes, ref)
 					}
-					escapes = append(escapes, x)
-				case *ssa.DebugRef:
-				default:
-					escapes = append(escapes, ref)
 				}
 			}
+			visit(call)
 			okMax := false
 			var maxV int64
 			for _, bc := range bufCalls {
